@@ -23,7 +23,9 @@ Inductive core :=
 | KPar                                      (* paragraph break (the specials "\n\n") *)
 | KMath (display : bool) (dl dr : str) (verb : str) (body : list core)
                                             (* formula; [verb] is its source text, delimiters included *)
-| KEnvBody (body : list core).              (* itemize / enumerate / unknown environment: rendered as its body *)
+| KEnvBody (body : list core)               (* itemize / enumerate / unknown environment: rendered as its body *)
+| KEnvWrap (pre post : str) (body : list core).
+                                            (* center: its body between two fixed strings (template "pre%spost") *)
 
 (** * The rules *)
 
@@ -76,6 +78,7 @@ Section Render.
             if display then indent_block c else c
         end
     | KEnvBody body => seq sl None body       (* list-like and unknown environments render their body *)
+    | KEnvWrap pre post body => pre ++ seq sl None body ++ post
     end.
 
   (** a sequence of items after the item [prev] *)
@@ -123,6 +126,35 @@ Section Abstract.
     | _ => None
     end.
 
+  (** an environment whose replacement is a template [pre%spost] ([center]: ["\n%s\n"]) *)
+  Fixpoint literals (l : list fmtitem) : option str :=
+    match l with
+    | [] => Some []
+    | FLit c :: r => option_map (cons c) (literals r)
+    | _ => None
+    end.
+  Fixpoint split_pos (l : list fmtitem) : option (str * str) :=
+    match l with
+    | FLit c :: r => option_map (fun ab : str * str => (c :: fst ab, snd ab)) (split_pos r)
+    | FPos :: r => option_map (fun b => ([], b)) (literals r)
+    | _ => None
+    end.
+  Definition wrap_env (nm : str) : option (str * str) :=
+    match assoc (lt_envs lt) nm with
+    | Some {| t_repl := RStr tmpl; t_discard := _ |} =>
+        if mem_c 37 tmpl && negb (Nat.eqb (length tmpl) 1)
+        then match parse_fmt (S (length tmpl)) tmpl with Some items => split_pos items | None => None end
+        else None
+    | _ => None
+    end.
+  (** the [\item] formatter *)
+  Definition item_macro (nm : str) : bool :=
+    match assoc (lt_macros lt) nm with
+    | Some {| t_repl := RCall CItem; t_discard := _ |} => true
+    | _ => false
+    end.
+  Definition item_text : str := [10; 32; 32; 42; 32]%N.      (* "\n  * " *)
+
   Definition no_arg_nodes (a : option pargs) : bool :=
     match a with None => true | Some (_, []) => true | Some (_, _ :: _) => false end.
 
@@ -148,10 +180,16 @@ Section Abstract.
         | Some (sp, [Some (NGroup _ _ _ _ _ b)]) =>
             if list_eqb str_eqb sp [[123%N]] && transparent_macro nm
             then option_map KTransparent (abs_body b) else None
+        | Some (sp, [None]) =>            (* \item without its optional argument: a bare macro standing for "\n  * " *)
+            if list_eqb str_eqb sp [[91%N]] && item_macro nm then Some (KSymbol item_text post) else None
         | _ => if no_arg_nodes a then option_map (fun r => KSymbol r post) (symbol_repl nm) else None
         end
     | NEnv _ _ _ nm _ b =>
-        if transparent_env nm then option_map KEnvBody (abs_body b) else None
+        if transparent_env nm then option_map KEnvBody (abs_body b)
+        else match wrap_env nm with
+             | Some (pre, post) => option_map (KEnvWrap pre post) (abs_body b)
+             | None => None
+             end
     | NSpecials _ _ _ ch a =>
         match assoc (lt_specials lt) ch with
         | None => Some (if str_eqb ch [10; 10]%N then KPar else KSpecials ch)   (* not in the table: its characters *)
@@ -181,6 +219,7 @@ Section Embed.
   Variable lt : l2tctx.
   Variable fmt_name : str.                (* the formatting macro used for [KTransparent] *)
   Variable env_name : str.                (* the environment used for [KEnvBody] *)
+  Variable wrap_name : str -> str -> str. (* the environment used for [KEnvWrap pre post] *)
   Variable sym_name : str -> str.         (* the macro name standing for a replacement string *)
   Variable spc_chars : str -> str.        (* the specials characters standing for a replacement string *)
   Variable verb_pos : str -> nat * nat.   (* where the source text of a formula lies in the source *)
@@ -201,6 +240,7 @@ Section Embed.
     | KMath d dl dr verb b =>
         NMath (fst (verb_pos verb)) (snd (verb_pos verb)) text_mode d dl dr (body b)
     | KEnvBody b => NEnv 0 0 text_mode env_name (Some ([], [])) (body b)
+    | KEnvWrap pre post b => NEnv 0 0 text_mode (wrap_name pre post) (Some ([], [])) (body b)
     end.
   Fixpoint embed_items (l : list core) : list (option node) :=
     match l with [] => [] | k :: r => Some (embed k) :: embed_items r end.
@@ -219,6 +259,8 @@ Section Embed.
     | KPar => assoc (lt_specials lt) [10; 10]%N = None
     | KMath _ _ _ verb b => slice src (fst (verb_pos verb)) (snd (verb_pos verb)) = verb /\ all b
     | KEnvBody b => transparent_env lt env_name = true /\ all b
+    | KEnvWrap pre post b =>
+        wrap_env lt (wrap_name pre post) = Some (pre, post) /\ all b
     end.
   Fixpoint cores_ok (l : list core) : Prop :=
     match l with [] => True | k :: r => core_ok k /\ cores_ok r end.
